@@ -689,9 +689,59 @@ theorem decodeMessages_sat : ∀ (fuel : Nat) (s : St), Inv s → s.rest.length 
     · rename_i hc
       exact ⟨trivial, hi, Reads.refl s hi.2.2.1, fun _ => hc⟩
 
+theorem decodeMessagesCtx_sat : ∀ (fuel k : Nat) (s : St), Inv s → s.rest.length < fuel →
+    Ended (decodeMessagesCtx fuel k s).2.2 ∧ Inv (decodeMessagesCtx fuel k s).1 ∧ Reads s (decodeMessagesCtx fuel k s).1 ∧
+      ((decodeMessagesCtx fuel k s).2.2 = .ok () → ¬ (decodeMessagesCtx fuel k s).1.q.cur < (decodeMessagesCtx fuel k s).1.q.hdr.dataSize)
+  | fuel, 0, s, hi, _ => by
+    unfold decodeMessagesCtx
+    exact ⟨trivial, hi, Reads.refl s hi.2.2.1, by intro h; cases h⟩
+  | 0, k + 1, s, _, hf => by omega
+  | fuel + 1, k + 1, s, hi, hf => by
+    unfold decodeMessagesCtx
+    split
+    · have hm := decodeMessage_sat s hi
+      split
+      · rename_i s' ev heq
+        rw [heq] at hm
+        obtain ⟨m1, hlt⟩ := hm
+        simp only at m1 hlt
+        have ih := decodeMessagesCtx_sat fuel k s' m1.1 (by omega)
+        refine ⟨ih.1, ih.2.1, m1.2.trans ih.2.2.1, ih.2.2.2⟩
+      · rename_i r hne
+        cases hr : decodeMessage s with
+        | ok p => exact absurd hr (by intro h; exact hne p.1 p.2 h)
+        | err e => simp [loopFail, Ended, hi, Reads.refl s hi.2.2.1]
+        | panic => rw [hr] at hm; exact hm.elim
+        | hang => rw [hr] at hm; exact hm.elim
+    · rename_i hc
+      exact ⟨trivial, hi, Reads.refl s hi.2.2.1, fun _ => hc⟩
+
+/-- a context cancelled during the call changes the record loop in one way only: it ends it with the context error -/
+theorem decodeMessagesCtx_cases : ∀ (fuel k : Nat) (s : St),
+    decodeMessagesCtx fuel k s = decodeMessages fuel s ∨ (decodeMessagesCtx fuel k s).2.2 = .err .ctx
+  | fuel, 0, s => by
+    right; unfold decodeMessagesCtx; rfl
+  | 0, k + 1, s => by
+    left; unfold decodeMessagesCtx decodeMessages; rfl
+  | fuel + 1, k + 1, s => by
+    unfold decodeMessagesCtx decodeMessages
+    split
+    · cases hr : decodeMessage s with
+      | ok p =>
+        obtain ⟨s', ev⟩ := p
+        simp only
+        rcases decodeMessagesCtx_cases fuel k s' with h | h
+        · left; rw [h]
+        · right; exact h
+      | err e => left; rfl
+      | panic => left; rfl
+      | hang => left; rfl
+    · left; rfl
+
 theorem peekLoop_sat : ∀ (fuel : Nat) (s : St), Inv s → s.rest.length < fuel →
     Ended (peekLoop fuel s).2.2 ∧ Inv (peekLoop fuel s).1 ∧ Reads s (peekLoop fuel s).1 ∧
-      ((peekLoop fuel s).2.2 = .ok () → (peekLoop fuel s).1.q.fileId.isNone = false)
+      ((peekLoop fuel s).2.2 = .ok () →
+        ¬ ((peekLoop fuel s).1.q.fileId.isNone ∧ (peekLoop fuel s).1.q.cur < (peekLoop fuel s).1.q.hdr.dataSize))
   | 0, s, _, hf => by omega
   | fuel + 1, s, hi, hf => by
     unfold peekLoop
@@ -711,7 +761,7 @@ theorem peekLoop_sat : ∀ (fuel : Nat) (s : St), Inv s → s.rest.length < fuel
         | panic => rw [hr] at hm; exact hm.elim
         | hang => rw [hr] at hm; exact hm.elim
     · rename_i hc
-      exact ⟨trivial, hi, Reads.refl s hi.2.2.1, fun _ => by cases hq : s.q.fileId <;> simp_all⟩
+      exact ⟨trivial, hi, Reads.refl s hi.2.2.1, fun _ => hc⟩
 
 theorem discardMessages_sat : ∀ (fuel : Nat) (s : St), Inv s → s.rest.length < fuel →
     Res.Sat (fun s' => Inv s' ∧ Reads s s' ∧ s'.look = s.look ∧ ¬ s'.q.cur < s'.q.hdr.dataSize) (discardMessages fuel s)
@@ -871,6 +921,49 @@ theorem decodeBody_good (s : St) (hi : Inv s) (he : s.q.err = none) : StepGood (
     | hang => exact hend.elim
 
 
+theorem decodeTail_good (l : LoopOut) (hend : Ended l.2.2) (i2 : Inv l.1) : StepGood (decodeTail l) := by
+  obtain ⟨s2, evs, r⟩ := l
+  simp only at hend i2
+  unfold decodeTail
+  cases r with
+  | ok u =>
+    simp only
+    have hc := decodeCRC_sat s2 i2
+    cases hcr : decodeCRC s2 with
+    | ok s3 =>
+      rw [hcr] at hc
+      obtain ⟨c0, c1, h1, h2, _⟩ := hc
+      refine ⟨by simp, by simp, ?_, by intro e h; cases h⟩
+      simp only
+      refine Inv.release (Inv.resetSeq ?_)
+      rw [h2]
+      have : IsBytes ([c0, c1] ++ s3.rest) := h1 ▸ i2.1
+      exact ⟨(IsBytes.append.mp this).2, i2.2.1, i2.2.2.1, i2.2.2.2⟩
+    | err e =>
+      have := fail_good s2 (Res.err e : Res St) i2 (P := fun _ => True) trivial (by intro a h; cases h)
+      exact ⟨this.1, this.2.1, Inv.release this.2.2.1, this.2.2.2⟩
+    | panic => rw [hcr] at hc; exact hc.elim
+    | hang => rw [hcr] at hc; exact hc.elim
+  | err e =>
+    have := fail_good s2 (Res.err e : Res Unit) i2 (P := fun _ => True) trivial (by intro a h; cases h)
+    exact ⟨this.1, this.2.1, Inv.release this.2.2.1, this.2.2.2⟩
+  | panic => exact hend.elim
+  | hang => exact hend.elim
+
+theorem decodeBodyAt_good (k : Nat) (s : St) (hi : Inv s) (he : s.q.err = none) : StepGood (decodeBodyAt k s) := by
+  unfold decodeBodyAt
+  have hh := headerOnce_sat s hi he
+  cases hr : headerOnce s with
+  | err e => exact failHeader_good s _ hi (P := fun _ => True) trivial (by intro a h; cases h)
+  | panic => rw [hr] at hh; exact hh.elim
+  | hang => rw [hr] at hh; exact hh.elim
+  | ok s1 =>
+    rw [hr] at hh
+    obtain ⟨i1, _⟩ := hh
+    simp only
+    have hm := decodeMessagesCtx_sat (fuelOf s1) k s1 i1 (by simp [fuelOf])
+    exact decodeTail_good _ hm.1 hm.2.1
+
 theorem StepGood.sticky (s : St) (hi : Inv s) (o : Out) (ho : o ≠ .panic ∧ o ≠ .hang)
     (he : ∀ e, o = .err e → s.q.err = some e) : StepGood (s, o, []) :=
   ⟨ho.1, ho.2, hi, he⟩
@@ -891,6 +984,43 @@ theorem stepDecodeCtx_good (c : Bool) (s : St) (hi : Inv s) : StepGood (stepDeco
     split
     · exact ⟨by simp, by simp, hi.setQ _ hi.2.2.1, by intro e h; cases h; rfl⟩
     · exact decodeBody_good s hi he
+
+theorem stepDecodeCtxAt_good (k : Nat) (s : St) (hi : Inv s) : StepGood (stepDecodeCtxAt k s) := by
+  unfold stepDecodeCtxAt
+  split
+  · rename_i e0 he0
+    exact StepGood.sticky s hi _ ⟨by simp, by simp⟩ (by intro e h; cases h; exact he0)
+  · rename_i he; exact decodeBodyAt_good k s hi he
+
+/-- `DecodeWithContext` with a context cancelled while it runs never returns a FIT that `Decode` would not return:
+whenever it returns one, the cancellation came too late to be seen and the call is `Decode` itself (state, FIT,
+listener calls) -/
+theorem stepDecodeCtxAt_fit (k : Nat) (s s' : St) (f : Fit) (evs : List Event)
+    (h : stepDecodeCtxAt k s = (s', .fit f, evs)) : stepDecode s = (s', .fit f, evs) := by
+  unfold stepDecodeCtxAt at h
+  unfold stepDecode
+  cases he : s.q.err with
+  | some e => rw [he] at h; cases h
+  | none =>
+    rw [he] at h
+    simp only at h ⊢
+    unfold decodeBodyAt at h
+    unfold decodeBody
+    cases hr : headerOnce s with
+    | ok s1 =>
+      rw [hr] at h
+      simp only at h ⊢
+      rcases decodeMessagesCtx_cases (fuelOf s1) k s1 with hc | hc
+      · rw [hc] at h
+        exact h
+      · rcases hd : decodeMessagesCtx (fuelOf s1) k s1 with ⟨s2, evs2, r⟩
+        rw [hd] at hc h
+        simp only at hc
+        subst hc
+        simp [decodeTail, fail] at h
+    | err e => rw [hr] at h; simp [failHeader, fail] at h
+    | panic => rw [hr] at h; simp [failHeader, fail] at h
+    | hang => rw [hr] at h; simp [failHeader, fail] at h
 
 theorem stepPeekHeader_good (s : St) (hi : Inv s) : StepGood (stepPeekHeader s) := by
   unfold stepPeekHeader
@@ -925,12 +1055,7 @@ theorem stepPeekFileId_good (s : St) (hi : Inv s) : StepGood (stepPeekFileId s) 
       obtain ⟨hend, i2, _, hf⟩ := hm
       simp only at hend i2 hf
       cases r with
-      | ok u =>
-        simp only
-        have := hf rfl
-        cases hq : s2.q.fileId with
-        | none => simp [hq] at this
-        | some f => exact ⟨by simp, by simp, i2, by intro e h; cases h⟩
+      | ok u => exact ⟨by simp, by simp, i2, by intro e h; cases h⟩
       | err e =>
         exact fail_good s2 (Res.err e : Res Unit) i2 (P := fun _ => True) trivial (by intro a h; cases h)
       | panic => exact hend.elim
@@ -1082,6 +1207,7 @@ theorem step_good (a : Api) (op : Op) (ha : ApiInv a) (hop : OpOK op) :
   cases op with
   | decode => exact lift _ (stepDecode_good a.d ha.1)
   | decodeCtx c => exact lift _ (stepDecodeCtx_good c a.d ha.1)
+  | decodeCtxAt k => exact lift _ (stepDecodeCtxAt_good k a.d ha.1)
   | peekHeader => exact lift _ (stepPeekHeader_good a.d ha.1)
   | peekFileId => exact lift _ (stepPeekFileId_good a.d ha.1)
   | discard => exact lift _ (stepDiscard_good a.d ha.1)
@@ -1184,6 +1310,6 @@ def stickyOut (e : Err) : Op → Out
 theorem step_sticky (a : Api) (e : Err) (h : a.d.q.err = some e) (op : Op) (hop : ∀ o b, op ≠ .reset o b) :
     (step a op).2 = (stickyOut e op, []) ∧ (step a op).1 = a := by
   cases op <;>
-    simp_all [step, stickyOut, stepDecode, stepDecodeCtx, stepPeekHeader, stepPeekFileId, stepDiscard, stepNext,
+    simp_all [step, stickyOut, stepDecode, stepDecodeCtx, stepDecodeCtxAt, stepPeekHeader, stepPeekFileId, stepDiscard, stepNext,
       stepCheckIntegrity, Api.advance]
 end Fit.DecApi
